@@ -117,8 +117,48 @@ def _load_ref(cp, n):
     return ref
 
 
+def _canon_obj(o, depth=0):
+    """canonical, value-based view of an unpickled object (pickle bytes of equal objects may differ: memo/identity)"""
+    import numpy as np
+    if depth > 6:
+        return "deep"
+    if o is None or isinstance(o, (bool, int, float, str)):
+        return o
+    if isinstance(o, (np.floating, np.integer)):
+        return o.item()
+    if isinstance(o, np.ndarray):
+        return hashlib.sha1(np.ascontiguousarray(o).tobytes()).hexdigest()
+    if hasattr(o, "asnumpy"):
+        return _canon_obj(o.asnumpy(), depth + 1)
+    if hasattr(o, "keys") and hasattr(o, "domain"):          # MultiField
+        return {k: _canon_obj(o[k].val, depth + 1) for k in sorted(o.keys())}
+    if hasattr(o, "val") and hasattr(o, "domain"):           # Field
+        return _canon_obj(o.val, depth + 1)
+    if hasattr(o, "time_stamps") and hasattr(o, "energy_values"):
+        return [_canon_obj(list(o.time_stamps), depth + 1), _canon_obj(list(o.energy_values), depth + 1)]
+    if isinstance(o, dict):
+        return {str(k): _canon_obj(v, depth + 1) for k, v in sorted(o.items(), key=lambda kv: str(kv[0]))}
+    if isinstance(o, (list, tuple)):
+        return [_canon_obj(v, depth + 1) for v in o]
+    return type(o).__name__
+
+
+def _digest(b):
+    """value digest of a pickle file; None if it does not load"""
+    import pickle
+    try:
+        o = pickle.loads(b)
+    except Exception:
+        return None
+    return hashlib.sha1(json.dumps(_canon_obj(o), sort_keys=True, default=str).encode()).hexdigest()
+
+
+_DIG = {}
+
+
 def _classify(rel, b, ref):
-    """status class of one file: value:<text> for the marker, complete:<i> / partial / empty / garbage for pickles"""
+    """status class of one file: value:<text> for the marker, complete:<i> / partial / empty / garbage for pickles
+    (complete:<i> = loads and has the VALUE of the file the uninterrupted run wrote in iteration i)"""
     if rel.startswith("last_finished_iteration"):
         t = b.decode("latin1")
         return "empty" if t == "" else f"value:{t}"
@@ -135,6 +175,16 @@ def _classify(rel, b, ref):
         return f"complete:{its[0]}" if "nifty_random_state" not in rel else "complete"
     if any(ref[i].get(c, b"").startswith(b) for i in ref for c in cand):
         return "partial"
+    d = _digest(b)
+    if d is not None:
+        for i in sorted(ref):
+            for c in cand:
+                rb = ref[i].get(c)
+                if rb is not None:
+                    if (i, c) not in _DIG:
+                        _DIG[(i, c)] = _digest(rb)
+                    if _DIG[(i, c)] == d:
+                        return f"complete:{i}" if "nifty_random_state" not in rel else "complete"
     return "garbage"
 
 
@@ -173,7 +223,7 @@ def session(args):
     os.makedirs(cp)
     rdir = os.path.join(w, "ref", "out")
     r = F.simulate(lambda: drive(rdir, cfg.get("r0", False), copy_to=cp), rdir)
-    out = dict(ref=dict(status=r["status"], exc=r["exc"], res=r["value"], ops=r["ops"], coarse=F.coarse(r["ops"])), scen={})
+    out = dict(ref=dict(status=r["status"], exc=r["exc"], res=r["value"], ops=r["ops"], coarse=F.coarse(r["ops"], drop_noop_mkdir=False)), scen={})
     if r["status"] != "done":
         json.dump(out, open(args["out"], "w"))
         return
@@ -188,13 +238,13 @@ def session(args):
         for kill in kills:
             k = F.simulate(lambda: drive(odir, resume), odir, kill)
             stages.append(dict(status=k["status"], exc=k["exc"], files=_files(odir, ref), snap=_snap(odir),
-                               coarse=F.coarse(k["ops"]), killed=k["killed"], kill=kill, res=k["value"]))
+                               coarse=F.coarse(k["ops"], drop_noop_mkdir=False), killed=k["killed"], kill=kill, res=k["value"]))
             resume = True
             if k["status"] == "error":
                 break
         k = F.simulate(lambda: drive(odir, True), odir, None)
         final = dict(status=k["status"], exc=k["exc"], res=k["value"], files=_files(odir, ref), snap=_snap(odir),
-                     coarse=F.coarse(k["ops"]),
+                     coarse=F.coarse(k["ops"], drop_noop_mkdir=False),
                      reads=sorted({q["path"] for q in k["queries"] if q["q"] == "read"}))
         out["scen"][str(sc["sid"])] = dict(kills=kills, stages=stages, final=final)
         shutil.rmtree(os.path.dirname(odir), ignore_errors=True)
@@ -275,13 +325,13 @@ def _scenario_real(sid, cfg, kills):
     for j, kill in enumerate(kills):
         r = _run_real(f"real{sid}_k{j}", odir, cfg, resume, kill)
         stages.append(dict(status=st_of.get(r["rc"], f"rc={r['rc']}"), exc=r["exc"], snap=_snap(odir), killed=r["killed"],
-                           coarse=F.coarse(r["ops"])))
+                           coarse=F.coarse(r["ops"], drop_noop_mkdir=False)))
         resume = True
         if r["rc"] not in (0, F.EXIT_KILLED):
             break
     r = _run_real(f"real{sid}_fin", odir, cfg, True)
     final = dict(status=st_of.get(r["rc"], f"rc={r['rc']}"), exc=r["exc"], res=r["res"], snap=_snap(odir),
-                 coarse=F.coarse(r["ops"]))
+                 coarse=F.coarse(r["ops"], drop_noop_mkdir=False))
     shutil.rmtree(os.path.dirname(odir), ignore_errors=True)
     return dict(kills=kills, stages=stages, final=final)
 
@@ -458,8 +508,13 @@ def _run_cfg(ctx, cfg):
         return
     nfine = mo[proto]["fine"]
     rng = __import__("random").Random(ctx.rng.randrange(10 ** 9))
-    scen = [[k] for k in range(nfine + 1)]
-    for _ in range(ctx.n(10, 60)):
+    singles = list(range(nfine + 1))
+    if ctx.quick:   # stratified: every point of the middle iteration, every 4th elsewhere, first/last
+        per = (nfine - 5) // n
+        lo = nfine - per * (n - 1)
+        singles = sorted(set(range(lo, lo + per + 1)) | set(range(0, nfine + 1, 4)) | {0, nfine - 1, nfine})
+    scen = [[k] for k in singles]
+    for _ in range(ctx.n(5, 60)):
         scen.append([rng.randrange(1, nfine), rng.randrange(0, 40)])
     sims = ctx.model(DRIVER, [dict(op="sim", proto=proto, r0=r0, kills=ks, **base) for ks in scen])
     scenarios = []
@@ -524,7 +579,7 @@ def _run_cfg(ctx, cfg):
     ctx.extra[f"{strat}:model_failure_predictions"] = window_model
     picked = _real_crosscheck(ctx, cfg, allsc, ref)
     _report_failures(ctx, cfg, allsc, ref, picked)
-    ctx.extra["exhaustive"] = True
+    ctx.extra["exhaustive"] = not ctx.quick
 
 
 def _real_crosscheck(ctx, cfg, allsc, ref):
